@@ -163,10 +163,10 @@ def Client.IPClient_measureClockOffsetIP : List Row := [
   (3, "offset = off"),  -- ClientNtp.returnedOffset: a.offset
   (2, "else"),  -- ClientNtp.returnedOffset: | some f
   (3, "offset = c.Filter.Do(t0, t1, t2, t3)"),  -- ClientNtp.returnedOffset: f a.t0 a.t1 a.t2 a.t3; f = Filters.luckyDo / Filters.ntimedDo (filter state advances)
-  (2, "if c.Histogram != nil"),  -- UNMODELLED: c.Histogram is in no Cfg; branch after prev update and Filter.Do that can still fail an accepted response
+  (2, "if c.Histogram != nil"),  -- ClientTail.tail: `match hist` (Histogram != nil) behind the prev update and Filter.Do; Props/C05Tail C05T_pin_tail_order
   (3, "err := c.Histogram.RecordValue(rtd.Microseconds())"),  -- env: hdrhistogram library call (observability; only benchmark tools set it); its error is no model input, see next rows
-  (3, "if err != nil"),  -- UNMODELLED: branch on the error of Histogram.RecordValue (rtd in us outside the histogram's range); no model input
-  (4, "return time.Time{}, 0, err"),  -- UNMODELLED: returns an error AFTER prev was updated and Filter.Do consumed the sample; exchangeIP says error => prev unchanged
+  (3, "if err != nil"),  -- ClientTail.Hist.recordOk: RecordValue(rtd.Microseconds()) == nil iff 0 <= us < limit (harness c03 cli.hist on the real library)
+  (4, "return time.Time{}, 0, err"),  -- ClientTail.tail: Result.errHist with prev' and the absorbed sample (error AFTER the commit); C05T_never_offset_otherwise_ip restates the invariant
   (2, "break"),  -- ClientNtp.runLoop: | .accept a => .accepted a (n + 1) (loop ends, nothing further is read)
   (1, "return timestamp, offset, nil")  -- ClientNtp.exchangeIP: (.accepted a _, updatePrev ...); value = Attempt.ok a.cRx (returnedOffset filter a) inIL in wrapLoop
   ]
@@ -238,27 +238,27 @@ def Client.SCIONClient_measureClockOffsetSCION : List Row := [
   (2, "ntsreq, requestID = nts.NewRequestPacket(ntskeData)"),  -- Nts.newRequestPacket: Cookie[0], capped placeholders, uid := copyN 32 rnd; NtsPool.request: reqId := uid; harness c03 op cl.exch
   (2, "nts.EncodePacket(&buf, &ntsreq)"),  -- Nts.encodePacket (encodePacketG true): uid, cookie, placeholders, authenticator appended to hdr; NtsPool.request
   (1, "var scionLayer slayers.SCION"),  -- env: variable declaration (scionLayer: built here for the request, reused as decode target of every response)
-  (1, "scionLayer.TrafficClass = c.DSCP << 2"),  -- UNMODELLED: request traffic class = DSCP << 2; no client-side def (ScionSrv.tcOfDscp is the listener's reply only)
-  (1, "scionLayer.SrcIA = localAddr.IA"),  -- UNMODELLED: request header SrcIA := localAddr.IA; outgoing SCION header in no model (ScionCtx.localIA: response check only)
+  (1, "scionLayer.TrafficClass = c.DSCP << 2"),  -- ClientTail.mkScionRequestHeader: trafficClass := dscp * 4 (dscp <= 63, else SetDSCP panicked: HdrResult.panicDSCP)
+  (1, "scionLayer.SrcIA = localAddr.IA"),  -- ClientTail.mkScionRequestHeader: srcIA := localIA
   (1, "srcAddrIP, ok := netip.AddrFromSlice(localAddr.Host.IP)"),  -- ClientNtp.localAddrOk: same slice as row 7
   (1, "if !ok"),  -- ClientNtp.entry: .proceed at row 8 implies ok here
   (2, "panic(errUnexpectedAddrType)"),  -- env: unreachable panic guard (row 9 returned otherwise)
-  (1, "err = scionLayer.SetSrcAddr(addr.HostIP(srcAddrIP.Unmap()))"),  -- UNMODELLED: request source host := local IP after Unmap; outgoing SCION header in no model
+  (1, "err = scionLayer.SetSrcAddr(addr.HostIP(srcAddrIP.Unmap()))"),  -- ClientTail.mkScionRequestHeader: src := hostOfIP localIP (T4Ip+4 / T16Ip+16 of the unmapped address); C05T_header_hosts_are_key_hosts
   (1, "if err != nil"),  -- env: slayers setter result
   (2, "panic(err)"),  -- env: panic guard; SetSrcAddr does not fail for an IP host address
-  (1, "scionLayer.DstIA = remoteAddr.IA"),  -- UNMODELLED: request header DstIA := remoteAddr.IA; outgoing header in no model (ScionCtx.remoteIA: response check only)
+  (1, "scionLayer.DstIA = remoteAddr.IA"),  -- ClientTail.mkScionRequestHeader: dstIA := remoteIA
   (1, "dstAddrIP, ok := netip.AddrFromSlice(remoteAddr.Host.IP)"),  -- ClientNtp.unmapIP: AddrFromSlice of remoteAddr.Host.IP; with NTS ok holds by row 32 (ntsDestinationSCIONOld: this was the panic)
-  (1, "if !ok"),  -- UNMODELLED: !ok for a caller-supplied remoteAddr (no NTS) whose Host.IP is nil or not 4/16 bytes; only the NTS route is modelled
-  (2, "panic(errUnexpectedAddrType)"),  -- UNMODELLED: panic(errUnexpectedAddrType) in the per-path goroutine (process crash); ClientNtp.entry checks the local address only
+  (1, "if !ok"),  -- ClientTail.mkScionRequestHeader: hostOfIP (held remoteIP) = none (caller-supplied address only; not network input)
+  (2, "panic(errUnexpectedAddrType)"),  -- ClientTail.HdrResult.panicAddr (C05T_header_remote_panic; executed: harness c03 stream c03hdr non-ip)
   (1, "err = scionLayer.SetDstAddr(addr.HostIP(dstAddrIP.Unmap()))"),  -- ClientNtp.ntsDestination: destination host of the SCION header = unmapIP ip (NTS only; else caller's remoteAddr, not modelled)
   (1, "if err != nil"),  -- env: slayers setter result
   (2, "panic(err)"),  -- env: panic guard; SetDstAddr does not fail for an IP host address
   (1, "err = path.Dataplane().SetPath(&scionLayer)"),  -- Multipath.RoundOut.assigned: the request travels over the path handed in (dataplane bytes: scionproto); harness c15 op mp.round
   (1, "if err != nil"),  -- env: scionproto result (decode of the path's raw bytes)
-  (2, "panic(err)"),  -- UNMODELLED: panic(err) when the daemon-supplied dataplane path cannot be set (raw path does not decode); no model has this exit
+  (2, "panic(err)"),  -- ClientTail.HdrResult.panicSetPath (input setPathOk; not executed)
   (1, "scionLayer.NextHdr = slayers.L4UDP"),  -- env: header chaining for serialisation (also PldType of the request MAC, row 105, and NextHdr of the E2E extension, row 109)
   (1, "var udpLayer slayers.UDP"),  -- env: variable declaration (udpLayer: built for the request, reused as decode target of every response)
-  (1, "udpLayer.SrcPort = uint16(localPort)"),  -- UNMODELLED: request UDP source port := the fresh socket's port; outgoing header in no model (ScionSrv.ntpReply answers to it)
+  (1, "udpLayer.SrcPort = uint16(localPort)"),  -- ClientTail.mkScionRequestHeader: srcPort := localPort (oracle C03:header:src-port: = the underlay source port)
   (1, "udpLayer.DstPort = uint16(remoteAddr.Host.Port)"),  -- ClientNtp.ntsDestination: port = UDP destination port of the SCION header (NTS only; else the caller's remoteAddr.Host.Port)
   (1, "udpLayer.SetNetworkLayerForChecksum(&scionLayer)"),  -- env: checksum set-up (gopacket)
   (1, "payload := gopacket.Payload(buf)"),  -- env: payload layer over buf (the NtpPacket.encodePacket / Nts.encodePacket bytes)
@@ -385,7 +385,7 @@ def Client.SCIONClient_measureClockOffsetSCION : List Row := [
   (5, "if spi == scion.PacketAuthSPIServer && algo == scion.PacketAuthAlgorithm"),  -- ClientNtp.classifySCIONWith: a.spi == spiServer && a.alg == algCMAC (pins C05_pin_spiServer, C05_pin_algorithm); else next
   (6, "_, err = spao.ComputeAuthCMAC( spao.MACInput{ Key: authKey, Header: slayers.PacketAuthOption{EndToEndOption: authOpt}, ScionLayer: &scionLayer, PldType: slayers.L4UDP, Pld: udpLayer.Contents[:len(udpLayer.Contents)+len(udpLayer.Payload)]}, c.Auth.buf, c.Auth.mac)"),  -- ClientNtp.AuthOpt.macOk: oracle input; MAC taken over the UDP header + payload that are decoded and evaluated (fix 8b4d8f7), not the last Length bytes of the datagram; exercised by the re-framed-response stream (DESIGN 13.7)
   (6, "if err != nil"),  -- env: crypto library result; AuthOpt has only macOk : Bool, no 'MAC not computable' verdict (see next row)
-  (7, "panic(err)"),  -- UNMODELLED: panic(err) if the MAC over a received packet cannot be computed; model assumes it always can (Step.panic = timestamps only)
+  (7, "panic(err)"),  -- env: unreachable from network input without RecyclePaths() (strict path decoding; the four registered path types are the four spao serialises) - pinned: Props/C05Tail C08T_pin_no_recycle_paths
   (6, "authenticated = subtle.ConstantTimeCompare(scion.PacketAuthOptMAC(authOpt), c.Auth.mac) != 0"),  -- ClientNtp.AuthOpt.macOk: option MAC (ScionSrv.authMAC: bytes 12..28) equals the computed one (oracle input)
   (6, "if !authenticated"),  -- ClientNtp.classifySCIONWith: if !a.macOk
   (7, "err = errInvalidPacketAuthenticator"),  -- ClientNtp.classifySCIONWith: .skip .auth (C05_scion_invalid_authenticator_never_accepted)
@@ -460,10 +460,10 @@ def Client.SCIONClient_measureClockOffsetSCION : List Row := [
   (3, "offset = off"),  -- ClientNtp.returnedOffset: a.offset
   (2, "else"),  -- ClientNtp.returnedOffset: | some f
   (3, "offset = c.Filter.Do(t0, t1, t2, t3)"),  -- ClientNtp.returnedOffset: f a.t0 a.t1 a.t2 a.t3; f = Filters.luckyDo / Filters.ntimedDo (filter state advances)
-  (2, "if c.Histogram != nil"),  -- UNMODELLED: c.Histogram is in no Cfg; branch after prev update and Filter.Do that can still fail an accepted response
+  (2, "if c.Histogram != nil"),  -- ClientTail.tail: `match hist` (Histogram != nil) behind the prev update and Filter.Do; Props/C05Tail C05T_pin_tail_order
   (3, "err := c.Histogram.RecordValue(rtd.Microseconds())"),  -- env: hdrhistogram library call (observability; only benchmark tools set it); its error is no model input, see next rows
-  (3, "if err != nil"),  -- UNMODELLED: branch on the error of Histogram.RecordValue (rtd in us outside the histogram's range); no model input
-  (4, "return time.Time{}, 0, err"),  -- UNMODELLED: returns an error AFTER prev was updated and Filter.Do consumed the sample; exchangeSCION: error => prev unchanged
+  (3, "if err != nil"),  -- ClientTail.Hist.recordOk: RecordValue(rtd.Microseconds()) == nil iff 0 <= us < limit (harness c03 cli.hist on the real library)
+  (4, "return time.Time{}, 0, err"),  -- ClientTail.tail: Result.errHist with prev' and the absorbed sample (error AFTER the commit); C05T_never_offset_otherwise_scion restates the invariant
   (2, "break"),  -- ClientNtp.runLoop: | .accept a => .accepted a (n + 1) (loop ends, nothing further is read)
   (1, "return timestamp, offset, nil")  -- ClientNtp.exchangeSCION: (.accepted a _, updatePrev ...); enters Multipath.round as succ[i] = some off, attemptLoop outs[j] = true
   ]
@@ -542,7 +542,7 @@ def Client.MeasureClockOffsetSCION : List Row := [
   (5, "if e == nil"),  -- Multipath.attemptLoopGo: | true :: rest
   (6, "ts, off, err = t, o, e"),  -- Multipath.attemptLoopGo: err := none, val := some j (C15_attempt_loop_reports_iff_any_success)
   (6, "if ntpc.InInterleavedMode()"),  -- ClientNtp.inInterleavedMode: interleavedMode && prev.reference != "" && prev.interleaved (condition only, see next row)
-  (7, "break"),  -- UNMODELLED: break after a success in interleaved mode; Multipath.attemptLoopGo assumes it never fires (IP twin: ClientNtp.wrapLoop)
+  (7, "break"),  -- ClientFlow.wrapLoopCtx: `if inIL then (s', 1)` (both attempt loops); count: Props/C05Tail C15T_exchanges_per_round; Multipath.round's probes is an upper bound only
   (5, "else"),  -- Multipath.attemptLoopGo: | false :: rest
   (6, "if nerr == j"),  -- Multipath.attemptLoopGo: if nerr == j (only while every attempt so far failed)
   (7, "err = e"),  -- Multipath.attemptLoopGo: err := some j (attemptLoopLastErr = seeded variant, C15_attempt_loop_last_error_refuted)
